@@ -91,12 +91,18 @@ impl fmt::Debug for Response {
 
 /// A cache for field names used in responses.
 #[derive(Clone, Debug)]
-pub(crate) struct ResponseFieldCache(HashSet<Arc<str>, ahash::RandomState>);
+pub(crate) struct ResponseFieldCache(
+    HashSet<Arc<str>, ahash::RandomState>,
+    /// The partially received response of a receive operation that is waiting for more data. It
+    /// is kept here, in the state owned by the connection, so it is not lost if that operation
+    /// is cancelled.
+    ResponseState,
+);
 
 impl ResponseFieldCache {
     /// Returns a new, empty cache.
     pub(crate) fn new() -> ResponseFieldCache {
-        ResponseFieldCache(HashSet::default())
+        ResponseFieldCache(HashSet::default(), ResponseState::Initial)
     }
 
     /// Insert a field name into the cache or retrieve a reference to an already existing entry.
@@ -131,10 +137,22 @@ enum ResponseState {
 
 impl<'a> ResponseBuilder<'a> {
     pub(crate) fn new(field_cache: &'a mut ResponseFieldCache) -> Self {
-        Self {
-            field_cache,
-            state: ResponseState::Initial,
-        }
+        // Continue the response of a previously cancelled receive operation, if there is one
+        let state = mem::replace(&mut field_cache.1, ResponseState::Initial);
+        Self { field_cache, state }
+    }
+
+    /// Move the partial response into the state owned by the connection. Called before waiting
+    /// for more data, so the lines received so far survive if the operation is cancelled there.
+    #[cfg(feature = "async")]
+    pub(crate) fn suspend(&mut self) {
+        self.field_cache.1 = mem::replace(&mut self.state, ResponseState::Initial);
+    }
+
+    /// Undo [`ResponseBuilder::suspend`] after the wait.
+    #[cfg(feature = "async")]
+    pub(crate) fn resume(&mut self) {
+        self.state = mem::replace(&mut self.field_cache.1, ResponseState::Initial);
     }
 
     pub(crate) fn parse(
